@@ -433,7 +433,91 @@ func eachReuse(emit func(xferCase)) {
 	}
 }
 
+// eachHeaderFault: a foreign ID and an error RCODE in EVERY envelope in turn (first, each middle one,
+// the closing one) of every short shape - AXFR and IXFR questions, three compositions, with and without
+// TSIG; the RCODE both with the envelope's records kept and with an empty answer section.
+func eachHeaderFault(emit func(xferCase)) {
+	for _, sh := range shapes(4) {
+		n := len(sh.flat())
+		for _, sizes := range someSizes(n) {
+			for _, ts := range []*tsigSpec{nil, enumKey} {
+				for j := range sizes {
+					c := sh
+					c.Sizes, c.Tsig, c.Sender, c.Trailer = sizes, ts, "harness", true
+					for _, x := range []int{1, 0x0100, 0xffff} {
+						c.Fault = faultSpec{Kind: "id", Env: j, Val: x}
+						emit(c)
+					}
+					for _, rc := range []int{dns.RcodeServerFailure, dns.RcodeRefused, dns.RcodeNotAuth} {
+						for k := 0; k < 2; k++ {
+							c.Fault = faultSpec{Kind: "rcode", Env: j, K: k, Val: rc - 1}
+							if c.Fault.rcodeLaterAxfr(c.Mode, len(sizes)) && pbt.Known(knownRcodeLater) {
+								pbt.Excluded(knownRcodeLater)
+								continue
+							}
+							emit(c)
+						}
+					}
+				}
+			}
+		}
+	}
+}
+
+// eachRecordType: every type of the layout table in a zone / a difference sequence, in an envelope that
+// is NOT the last one (one record per envelope, two envelopes, one envelope), with and without TSIG,
+// received from the harness and from the library's own sender. What the caller holds when the channel
+// is closed must be what was sent.
+func eachRecordType(emit func(xferCase)) {
+	for k, r := range fixedTyped() {
+		a := recSpec{T: "A", Owner: "www", V: uint32(k)}
+		ax := xferCase{Mode: "axfr", Zone: "example.", QID: 4660, Serial: 7, Recs: []recSpec{r, a}}
+		ix := xferCase{Mode: "ixfr", Zone: "example.", QID: 4660, QSerial: 5, Serial: 7,
+			Diffs: []diffSpec{{From: 5, To: 7, Del: []recSpec{r}, Add: []recSpec{r, a}}}}
+		for _, ts := range []*tsigSpec{nil, enumKey} {
+			for i, sizes := range [][]int{{1, 1, 1, 1}, {2, 2}, {4}} {
+				c := ax
+				c.Sizes, c.Tsig, c.Sender, c.Trailer = sizes, ts, "harness", true
+				emit(c)
+				if i == 1 {
+					c.Sender, c.Trailer = "library", false
+					emit(c)
+				}
+			}
+			for _, sizes := range [][]int{{1, 1, 1, 1, 1, 1, 1}, {3, 4}} {
+				c := ix
+				c.Sizes, c.Tsig, c.Sender, c.Trailer = sizes, ts, "harness", true
+				emit(c)
+			}
+		}
+	}
+}
+
 func init() {
+	pbt.RegisterEnum(pbt.Enum[xferCase]{Name: "record-types", Each: eachRecordType, Check: checkXfer})
+	pbt.RegisterEnum(pbt.Enum[xferCase]{Name: "header-fault-every-envelope", Exhaustive: true, Each: eachHeaderFault, Check: checkXfer})
+
+	// known finding (round 8): inAxfr checks the RCODE of the first envelope only (inIxfr checks every
+	// one). Breaker's input: AXFR answered with [SOA A] rcode 0, then an envelope with rcode SERVFAIL,
+	// then [SOA]: delivered as error-free envelopes and reported complete.
+	pbt.Probe(knownRcodeLater, func() error {
+		for _, emptied := range []int{1, 0} {
+			c := xferCase{Mode: "axfr", Zone: "example.", QID: 4660, Serial: 7, Recs: []recSpec{{T: "A", Owner: "www", V: 1}, {T: "A", Owner: "r1", V: 2}}, Sizes: []int{2, 1, 1}, Sender: "harness",
+				Fault: faultSpec{Kind: "rcode", Env: 1, K: emptied, Val: dns.RcodeServerFailure - 1}}
+			if why := c.valid(); why != "" {
+				return nil
+			}
+			r, p, err := runHarnessSender(c)
+			if err != nil {
+				return nil // the harness could not run the history: nothing known about the finding
+			}
+			if err := checkFaulty(c, p, r); err != nil {
+				return pbt.Errf("AXFR answered with envelope 0 = [SOA A] rcode 0, envelope 1 = rcode SERVFAIL (answer section emptied: %v), envelope 2 = [SOA]: %v", emptied == 1, err)
+			}
+		}
+		return nil
+	})
+
 	pbt.RegisterEnum(pbt.Enum[xferCase]{Name: "other-configured-key", Each: eachOtherKey, Check: checkXfer})
 	pbt.RegisterEnum(pbt.Enum[xferCase]{Name: "reused-transfer", Each: eachReuse, Check: checkXfer})
 	pbt.RegisterEnum(pbt.Enum[xferCase]{Name: "question-spelling", Each: eachQuestionSpelling, Check: checkXfer})
